@@ -291,6 +291,9 @@ func runC04(c *Ctx) {
 		runWatch(c, r)
 		eval(r, fmt.Sprintf("random %d", i))
 	}
-	c.Rep.Rule = "whole controller against the fake API server inside a synctest bubble, refresh period 10^6 s (only the watch can deliver): a base history of 8 server mutations with each watch fault {server closes stream, Watch() errors k times, status frame, bookmark frame, unknown frame type, close right after a burst, close then pause / barrier} injected at every position, plus seeded random histories with several faults, with and without a controller-level filter, under three levels of logger-driven schedule perturbation. After the server quiesces and the reconnect delay elapses: cache = server's accepted objects, subscriber mirror = cache with well-formed events, controller alive, one list only; the quiescent outcome is compared with the extracted model (list, then the whole log in order). Non-trivial = run with at least one reconnect."
+	for i, k := range []int{0, 40, 99, 100, 101, 130} {
+		busyBurst(c, k, i%3)
+	}
+	c.Rep.Rule = "whole controller against the fake API server inside a synctest bubble, refresh period 10^6 s (only the watch can deliver): a base history of 8 server mutations with each watch fault {server closes stream, Watch() errors k times, status frame, bookmark frame, unknown frame type, close right after a burst, close then pause / barrier} injected at every position, plus seeded random histories with several faults, with and without a controller-level filter, under three levels of logger-driven schedule perturbation. After the server quiesces and the reconnect delay elapses: cache = server's accepted objects, subscriber mirror = cache with well-formed events, controller alive, one list only; the quiescent outcome is compared with the extracted model (list, then the whole log in order). Plus the overflow history: the controller held in its filter while k in {0,40,99,100,101,130} changes arrive; the changes its subscriber sees afterwards = extracted busy_burst_outcome EventBufsiz k (closed form proved: the first EventBufsiz survive, k - EventBufsiz are lost). Non-trivial = run with at least one reconnect."
 	c.Rep.Stats["runs"] = runs
 }
